@@ -20,7 +20,7 @@ CMD_T, DATA_T, CONN_T = 0.08, 0.20, 0.08
 SLACK = 1.2
 WATCHDOG = 3.0
 
-SERVER_POINTS = ['after-banner', 'after-ehlo', 'after-mail', 'after-rcpt', 'after-noop', 'after-rset', 'mid-line', 'trickle-line', 'after-354',
+SERVER_POINTS = ['after-banner', 'after-ehlo', 'after-mail', 'after-rcpt', 'after-noop', 'after-rset', 'mid-line', 'noop-plus-partial', 'eod-plus-partial', 'trickle-line', 'after-354',
                  'inside-data', 'trickle-data', 'after-eod', 'auth-challenge', 'auth-initial', 'auth-second', 'starttls-handshake', 'tls-immediate', 'tls-close']
 RELAY_STAGES = ['connect', 'banner', 'ehlo', 'helo', 'starttls', 'starttls-handshake', 'tls-immediate', 'auth', 'mail', 'rcpt', 'data', 'eod', 'rset', 'quit', 'tls-close']
 
@@ -148,6 +148,9 @@ def run_server(case, model):
                         trickler = gevent.spawn(trickle)
                     elif point == 'after-noop':
                         send(b'NOOP\r\n'); reply(); ref['t'] = time.time()
+                    elif point == 'noop-plus-partial':
+                        # a complete command and the beginning of the next line in ONE segment, then silence
+                        send(b'NOOP\r\nNO'); reply(); ref['t'] = time.time()
                     elif point in ('starttls-handshake', 'tls-close') or is_auth:
                         send(b'STARTTLS\r\n'); reply(); ref['t'] = time.time()
                         if point == 'starttls-handshake':
@@ -197,6 +200,10 @@ def run_server(case, model):
                                     trickler = gevent.spawn(trickle)
                                 elif point == 'after-eod':
                                     send(b'Subject: x\r\n\r\nbody\r\n.\r\n'); reply(); ref['t'] = time.time()
+                                    steps = ['command:0', 'command:inf']
+                                elif point == 'eod-plus-partial':
+                                    # the end-of-data line and the beginning of the next command in ONE segment, then silence
+                                    send(b'Subject: x\r\n\r\nbody\r\n.\r\nMAIL FR'); reply(); ref['t'] = time.time()
                                     steps = ['command:0', 'command:inf']
                 if not steps or steps[-1].endswith(':0'):
                     steps.append('command:inf')
